@@ -2,6 +2,7 @@ import UnifexModel.Driver.Entry
 import UnifexModel.Proto.EventV1
 import UnifexModel.Proto.AutoReset
 import UnifexModel.Proto.EventV2
+import UnifexModel.Proto.AsyncPass
 
 namespace Unifex.Driver.Entries
 open Unifex.Proto
@@ -17,5 +18,9 @@ def autoreset : ModelEntries :=
 def eventv2 : ModelEntries :=
   ("eventv2", EventV2.configs.map (fun (n, c) =>
       (n, mkEntry (EventV2.sys c) EventV2.obsOf (EventV2.final c))))
+
+def asyncpass : ModelEntries :=
+  ("asyncpass", AsyncPass.configs.map (fun (n, c) =>
+      (n, mkEntry (AsyncPass.sys c) AsyncPass.obsOf (AsyncPass.final c))))
 
 end Unifex.Driver.Entries
